@@ -87,6 +87,11 @@ func readAll(cc *chunkConn) string {
 	var out []string
 	for i := 0; i < 1000; i++ {
 		p, err := co.ReadMsgHeader(nil)
+		if err == dns.ErrShortRead {
+			// a frame too short for a header: the frame is gone, the stream goes on
+			out = append(out, "short")
+			continue
+		}
 		if err != nil {
 			switch {
 			case err == io.EOF:
@@ -264,6 +269,33 @@ func runC12(c *Ctx) {
 			got2 := readAllRead(&chunkConn{chunks: append([][]byte{}, cs...)})
 			c.Pred("framing", "frames-intact-conn-read", "chunks="+chunksHex(cs)[:min(len(chunksHex(cs)), 400)], got2 == strings.Join(want, " "), got2[:min(len(got2), 80)], "the messages, then eof", k > 0)
 		}
+	}
+	// frames too short to hold a header between whole ones: each is consumed whole and reported as a short read, the frames
+	// behind it are delivered intact (a connection that is used again after a runt reply)
+	for i, n := 0, c.Scale(300, 6000); i < n; i++ {
+		k := 1 + r.Intn(5)
+		var want []string
+		var stream []byte
+		runts := 0
+		for j := 0; j < k; j++ {
+			sz := 12 + r.Intn(40)
+			if r.Chance(45) {
+				sz = r.Intn(12)
+				runts++
+			}
+			m := r.Bytes(sz)
+			stream = append(putUint(stream, 2, uint64(len(m))), m...)
+			if sz < 12 {
+				want = append(want, "short")
+			} else {
+				want = append(want, hx(m))
+			}
+		}
+		want = append(want, "eof")
+		cs := randomChunks(r, stream)
+		got := readAll(&chunkConn{chunks: append([][]byte{}, cs...)})
+		c.Op("runt-frames", "deframe "+chunksHex(cs), got, runts > 0)
+		c.Pred("runt-frames", "frames-intact-behind-runts", "chunks="+chunksHex(cs)[:min(len(chunksHex(cs)), 400)], got == strings.Join(want, " "), got[:min(len(got), 120)], "short for every runt, every whole frame intact, then eof", runts > 0)
 	}
 	// every end offset of a small stream (exhaustive)
 	{
